@@ -12,6 +12,7 @@ import (
 	"strings"
 	"testing/iotest"
 
+	"github.com/ohler55/ojg"
 	"github.com/ohler55/ojg/gen"
 	"github.com/ohler55/ojg/oj"
 	"github.com/ohler55/ojg/pretty"
@@ -76,6 +77,64 @@ func SenParser() *sen.Parser {
 	quiet(func() { _, _ = p.Parse(deepOK) })
 	quiet(func() { _, _ = p.Parse(closeFail) })
 	quiet(func() { _, _ = p.ParseReader(strings.NewReader(string(senOpenErr))) })
+	return p
+}
+
+// The "AfterOption" veterans end their history with calls that pass a number conversion option
+// (that option is the business of the call that passes it); the "AfterAbort" veterans end it
+// with a ParseReader call that a reader error (not EOF) ends while containers are open, and a
+// callback that panics.
+
+var bigNums = []byte(`[123456789012345678901234567890,0.12345678901234567890123,1e400,7]`)
+
+type errReader struct {
+	data []byte
+	err  error
+}
+
+func (r *errReader) Read(p []byte) (int, error) {
+	if len(r.data) == 0 {
+		return 0, r.err
+	}
+	n := copy(p, r.data)
+	r.data = r.data[n:]
+	return n, nil
+}
+
+var errBroken = io.ErrUnexpectedEOF
+
+func OjParserAfterOption() *oj.Parser {
+	p := OjParser()
+	quiet(func() { _, _ = p.Parse(bigNums, ojg.NumConvString) })
+	quiet(func() { _, _ = p.ParseReader(bytes.NewReader(bigNums), ojg.NumConvString) })
+	return p
+}
+
+func SenParserAfterOption() *sen.Parser {
+	p := SenParser()
+	quiet(func() { _, _ = p.ParseReader(bytes.NewReader(bigNums), ojg.NumConvString) })
+	quiet(func() { _, _ = p.Parse(bigNums, ojg.NumConvString) })
+	return p
+}
+
+func OjParserAfterAbort() *oj.Parser {
+	p := OjParser()
+	quiet(func() { _, _ = p.Parse(deepOK, func(any) bool { panic("callback") }) })
+	quiet(func() { _, _ = p.ParseReader(&errReader{data: []byte(`{"a":1,"b":[2,{"c":[`), err: errBroken}) })
+	return p
+}
+
+func GenParserAfterAbort() *gen.Parser {
+	p := GenParser()
+	quiet(func() { _, _ = p.Parse(deepOK, func(gen.Node) bool { panic("callback") }) })
+	quiet(func() { _, _ = p.ParseReader(&errReader{data: []byte(`{"a":1,"b":[2,{"c":[`), err: errBroken}) })
+	return p
+}
+
+func SenParserAfterAbort() *sen.Parser {
+	p := SenParser()
+	quiet(func() { _, _ = p.Parse(deepOK, func(any) bool { panic("callback") }) })
+	quiet(func() { _, _ = p.ParseReader(&errReader{data: []byte(`{a:1 b:[2 {c:[`), err: errBroken}) })
 	return p
 }
 
